@@ -444,6 +444,13 @@ def run(chk):
     rs = chk.tlc('MC_FrameWriter', 'FrameWriter_seeded.cfg', must_pass=False)
     if 'WellFramed' not in rs.violated:
         raise core.MachineryError('self-test: the envelope sized by the compressed length should violate WellFramed')
+    if not quick:
+        # the envelope laws for ALL sizes (TLC above: boundary sizes): TLAPS proofs of specs/FrameEnvelopeProofs.tla
+        import subprocess
+        pr = subprocess.run([os.path.join(core.VERIF, 'tools', 'prove.sh'), 'FrameEnvelopeProofs', '600'], capture_output=True, text=True)
+        chk.extra['tlaps_FrameEnvelopeProofs'] = pr.stdout.strip().splitlines()[-1:] or ['no output']
+        if pr.returncode != 0:
+            raise core.MachineryError('TLAPS did not prove FrameEnvelopeProofs: %s' % (pr.stdout + pr.stderr)[-300:])
     import zlib
     obs = []
     sizes_fw = [0, 1, 2, 63, 64, 65, 100, 126, 127, 128, 129, 130, 140, 255, 256, 257, 300, 1000, 16382, 16383, 16384, 16385, 16390, 20000]
@@ -471,7 +478,6 @@ def run(chk):
         json.dump([{k: v for k, v in o.items() if k != 'fill'} for o in obs], f)
     r4 = chk.tlc('Trace_FrameWriter', 'Trace_FrameWriter.cfg', env={'TRACE_FILE': tf3}, must_pass=False, workers=1)
     if 'Law' in r4.violated:
-        import re
         m = re.search(r'\bi = (\d+)', r4.out)
         bad = obs[int(m.group(1)) - 1] if m else None
         chk.violation('framing:write:envelope', 'a frame written by Packet.write violates the envelope contract of Trace_FrameWriter: %r' % (bad,), {'obs': bad})
